@@ -63,6 +63,9 @@ type PathState struct {
 	phi    map[*ssa.Phi]ssa.Value
 	mem    map[*ssa.Alloc]ssa.Value // last value stored into tracked local cells on this path
 	Sink   ssa.Instruction
+	armed  bool // the From instruction has been passed (always true when the query has no From)
+	// ArmedAt is the index into Blocks of the block containing From (0 without From).
+	ArmedAt int
 }
 
 // Resolve maps a value to what it denotes on this path (phi nodes replaced by the incoming operand).
@@ -212,16 +215,17 @@ func (s *PathState) Witness() string {
 
 // PathQuery describes one exploration.
 type PathQuery struct {
-	Fn            *ssa.Function
-	From          ssa.Instruction              // start right after this instruction (nil: function entry)
-	Sink          func(ssa.Instruction) bool   // a path ends (and is recorded) when it reaches such an instruction
-	Event         func(ssa.Instruction) string // tag instructions of interest ("" = ignore)
-	Relevant      func(cond ssa.Value) bool    // which branch conditions are recorded (nil: all)
-	Cut           func(ssa.Instruction) bool   // a path silently ends at such an instruction (not recorded)
-	Track         []ssa.Value                  // values whose per-path resolution the rule will ask for (their phis join the state key)
-	KeepLoopFacts bool                         // do not forget loop-local facts on back edges (for single-iteration queries)
-	MaxStates     int                          // default 200000
-	Steps         int                          // out: number of (block,state) pairs visited
+	Fn               *ssa.Function
+	From             ssa.Instruction              // sinks, cuts and events count only after this instruction was passed (nil: from entry); facts are collected from the function entry either way
+	EventsBeforeFrom bool                         // also record events met before From
+	Sink             func(ssa.Instruction) bool   // a path ends (and is recorded) when it reaches such an instruction
+	Event            func(ssa.Instruction) string // tag instructions of interest ("" = ignore)
+	Relevant         func(cond ssa.Value) bool    // which branch conditions are recorded (nil: all)
+	Cut              func(ssa.Instruction) bool   // a path silently ends at such an instruction (not recorded)
+	Track            []ssa.Value                  // values whose per-path resolution the rule will ask for (their phis join the state key)
+	KeepLoopFacts    bool                         // do not forget loop-local facts on back edges (for single-iteration queries)
+	MaxStates        int                          // default 200000
+	Steps            int                          // out: number of (block,state) pairs visited
 }
 
 type pstate struct {
@@ -240,16 +244,10 @@ func (q *PathQuery) Run() ([]*PathState, error) {
 	if q.MaxStates == 0 {
 		q.MaxStates = 200000
 	}
-	start := pstate{blk: fn.Blocks[0], idx: 0, st: &PathState{phi: map[*ssa.Phi]ssa.Value{}}}
+	start := pstate{blk: fn.Blocks[0], idx: 0, st: &PathState{phi: map[*ssa.Phi]ssa.Value{}, armed: q.From == nil}}
 	if q.From != nil {
-		b := q.From.Block()
-		if b == nil || b.Parent() != fn {
+		if b := q.From.Block(); b == nil || b.Parent() != fn {
 			return nil, fmt.Errorf("start instruction not in function")
-		}
-		for i, in := range b.Instrs {
-			if in == q.From {
-				start.blk, start.idx = b, i+1
-			}
 		}
 	}
 	condPhis := relevantPhis(fn)
@@ -273,25 +271,29 @@ func (q *PathQuery) Run() ([]*PathState, error) {
 			return out, fmt.Errorf("path exploration exceeded %d states in %s", q.MaxStates, fn)
 		}
 		st := cur.st
-		st = &PathState{Lits: st.Lits, Events: st.Events, Blocks: append(append([]int{}, st.Blocks...), cur.blk.Index), phi: st.phi, mem: st.mem}
+		st = &PathState{Lits: st.Lits, Events: st.Events, Blocks: append(append([]int{}, st.Blocks...), cur.blk.Index), phi: st.phi, mem: st.mem, armed: st.armed, ArmedAt: st.ArmedAt}
 		ended := false
 		for i := cur.idx; i < len(cur.blk.Instrs); i++ {
 			in := cur.blk.Instrs[i]
-			if q.Sink != nil && q.Sink(in) {
+			if st.armed && q.Sink != nil && q.Sink(in) {
 				rec := *st
 				rec.Sink = in
 				out = append(out, &rec)
 				ended = true
 				break
 			}
-			if q.Cut != nil && q.Cut(in) {
+			if st.armed && q.Cut != nil && q.Cut(in) {
 				ended = true
 				break
 			}
-			if q.Event != nil {
+			if q.Event != nil && (st.armed || q.EventsBeforeFrom) {
 				if tag := q.Event(in); tag != "" {
 					st.Events = addEvent(st.Events, Event{in, tag})
 				}
+			}
+			if !st.armed && in == q.From {
+				st.armed = true
+				st.ArmedAt = len(st.Blocks) - 1
 			}
 			switch x := in.(type) {
 			case *ssa.Store:
@@ -360,7 +362,7 @@ func addEvent(evs []Event, e Event) []Event {
 
 // enter moves along edge from→to: resolves to's phis (parallel assignment) and forgets loop-local facts on back edges.
 func (q *PathQuery) enter(from, to *ssa.BasicBlock, st *PathState) pstate {
-	ns := &PathState{Lits: st.Lits, Events: st.Events, Blocks: st.Blocks, phi: st.phi, mem: st.mem}
+	ns := &PathState{Lits: st.Lits, Events: st.Events, Blocks: st.Blocks, phi: st.phi, mem: st.mem, armed: st.armed, ArmedAt: st.ArmedAt}
 	predIdx := -1
 	for i, p := range to.Preds {
 		if p == from {
@@ -478,7 +480,7 @@ func (q *PathQuery) assume(st *PathState, t *ssa.If, outcome bool) (*PathState, 
 	if q.Relevant != nil && !q.Relevant(t.Cond) && !q.Relevant(cond) {
 		return st, true
 	}
-	ns := &PathState{Lits: append(append([]Lit{}, st.Lits...), lit), Events: st.Events, Blocks: st.Blocks, phi: st.phi, mem: st.mem}
+	ns := &PathState{Lits: append(append([]Lit{}, st.Lits...), lit), Events: st.Events, Blocks: st.Blocks, phi: st.phi, mem: st.mem, armed: st.armed, ArmedAt: st.ArmedAt}
 	return ns, true
 }
 
@@ -590,7 +592,7 @@ func markPhis(out map[*ssa.Phi]bool, v ssa.Value, d int) {
 
 func stateKey(b *ssa.BasicBlock, idx int, st *PathState, condPhis map[*ssa.Phi]bool) string {
 	var sb strings.Builder
-	fmt.Fprintf(&sb, "%d.%d|", b.Index, idx)
+	fmt.Fprintf(&sb, "%d.%d.%v|", b.Index, idx, st.armed)
 	lits := make([]string, 0, len(st.Lits))
 	for _, l := range st.Lits {
 		lits = append(lits, fmt.Sprintf("%d:%p:%p:%v", l.Op, l.X, l.Y, l.Val))
